@@ -167,6 +167,11 @@ def gen_model(rng, stream="main", size=None):
         v = b.dyadic() if r.random() < 0.3 else b.small(nz=True)
         b.declare("p%d" % i, "parameter Real p%d = %s;" % (i, lit(v)), v, given=True)
         b.pnames.append("p%d" % i)
+    if r.random() < 0.35:
+        # a parameter without value (NaN): never replaced by any pass, stays an input of the functions
+        v = b.small(nz=True)
+        b.declare("pf", "parameter Real pf;", v, given=True)
+        b.pnames.append("pf")
     # parameter expressions (chains allowed: q1 may use q0)
     for i in range(r.randint(0, 2)):
         src = r.choice(b.pnames)
@@ -202,11 +207,11 @@ def gen_model(rng, stream="main", size=None):
     n = size if size is not None else r.randint(3, 7)
     kinds_first = ["const", "paramexpr", "affine"]
     kinds_all = ["const", "const", "alias", "alias", "negalias", "negalias", "affine", "affine", "paramexpr",
-                 "scaled", "pscaled", "block", "elim", "elim", "zero", "negform", "paramalias", "inputalias"]
+                 "scaled", "pscaled", "rscaled", "block", "elim", "elim", "elimchain", "zero", "negform", "paramalias", "inputalias"]
     if stream == "nonlinear":
         kinds_all = kinds_all + ["nonlin", "nonlin", "nonlin", "ifelim", "ifelim"]
     if stream in ("contradiction", "iter"):
-        kinds_all = [k for k in kinds_all if k != "elim"]
+        kinds_all = [k for k in kinds_all if k not in ("elim", "elimchain")]
     i = 0
     while i < n:
         pool = b.unknowns + b.states + b.unames
@@ -290,6 +295,46 @@ def gen_model(rng, stream="main", size=None):
                 eq, val = "%s + (%s) = 0" % (v, rhs), -val
             else:
                 eq, val = "(%s) + %s = 0" % (rhs, v), -val
+        elif kind == "rscaled":
+            # a product whose unknown-carrying factor is the LEFT operand and whose right factor is a non-constant,
+            # non-zero expression (unreplaced parameter / always positive): only a constant factor may be dropped
+            w = b.ref()
+            if w is None:
+                continue
+            k = b.small(lo=-2, hi=2)
+            val = b.sol[w] + k
+            inner = "%s - %s - %s" % (v, w, lit(k) if k >= 0 else par(lit(k)))
+            pz = r.choice([q for q in b.pnames if b.sol[q] != 0])
+            eq = r.choice(["(%s) * %s = 0" % (inner, pz), "(%s) * (2 + %s*%s) = 0" % (inner, pz, pz),
+                           "(%s) * (%s + %s) = 0" % (inner, pz, lit(abs(b.sol[pz]) + 1))])
+        elif kind == "elimchain":
+            # eliminable variables defined through each other, 3-5 deep: e_a = f(e_b), e_b = g(e_c), e_c = h(x);
+            # the head is used by an ordinary equation (the substitution fixpoint must run to the end)
+            depth = r.randint(3, 5)
+            if i + depth + 1 > n + 3:
+                depth = 3
+            base = b.ref()
+            if base is None:
+                continue
+            chain = ["e_v%d" % (i + j) for j in range(depth)]      # chain[0] is the head
+            prev, prev_val = base, b.sol[base]
+            ceqs, cvals = [], {}
+            for nm in reversed(chain):
+                a, k = b.small(nz=True, lo=-2, hi=2), b.small(lo=-2, hi=2)
+                cvals[nm] = a * prev_val + k
+                rhs = "%s*%s + %s" % (lit(a) if a > 0 else par(lit(a)), prev, lit(k) if k >= 0 else par(lit(k)))
+                ceqs.append(r.choice(["%s = %s" % (nm, rhs), "%s = %s" % (rhs, nm), "%s + (%s) = 0" % (nm, "(-1)*(" + rhs + ")")]))
+                prev, prev_val = nm, cvals[nm]
+            user = "v%d" % (i + depth)
+            k = b.small(lo=-2, hi=2)
+            for nm in chain:
+                b.declare(nm, "Real %s;" % nm, cvals[nm])
+            b.declare(user, "Real %s%s;" % (user, b.attrs()), 2 * cvals[chain[0]] + k)
+            b.unknowns.extend(chain + [user])
+            b.eqs.extend(ceqs + ["%s = 2*%s + %s" % (user, chain[0], lit(k) if k >= 0 else par(lit(k)))])
+            b.kinds.append("elimchain%d" % depth)
+            i += depth + 1
+            continue
         elif kind == "ifelim":
             # an if-equation defining an eliminable variable; after the SX round trip it is the sum of two
             # if_else_zero terms `extract_assignment` looks through (condition on an input only)
@@ -390,12 +435,21 @@ def gen_model(rng, stream="main", size=None):
                 forms.append("%s = %s + %s" % (x, w, lit(d) if d >= 0 else par(lit(d))))
             b.inits.append(r.choice(forms))
     if stream == "delay":
-        # a delayed expression that mentions a parameter (finding C15-F2 when parameter values are replaced)
-        w = b.ref()
+        # a delayed expression over variables that the passes eliminate (aliases, constant assignments, eliminable
+        # variables), a constant and a parameter (former finding C15-F4): every substituting pass must rewrite it
+        pool = list(b.unknowns)
+        r.shuffle(pool)
+        picks = pool[:3] if pool else [b.pnames[0]]
         p = r.choice(b.pnames)
+        c = r.choice(b.cnames)
+        terms = ["%s*%s" % (p, picks[0])]
+        if len(picks) > 1:
+            terms.append("%s*%s" % (c, picks[1]))
+        if len(picks) > 2:
+            terms.append(picks[2])
         b.declare("dly", "Real dly;", 0)
         b.unknowns.append("dly")
-        b.eqs.append("dly = delay(%s*%s, 1.0)" % (p, w))
+        b.eqs.append("dly = delay(%s, 1.0)" % " + ".join(terms))
         b.sol["_pymoca_delay_0"] = Fraction(0)
         b.given.append("_pymoca_delay_0")
         b.kinds.append("delay")
@@ -525,7 +579,9 @@ def gen_options(rng, case):
         o["replace_constant_values"] = True
         o["replace_constant_expressions"] = False
     elif stream == "delay":
-        o["replace_parameter_values"] = True
+        o["replace_parameter_values"] = rng.random() < 0.7
+        for k in ("detect_aliases", "eliminate_constant_assignments", "replace_constant_values"):
+            o[k] = rng.random() < 0.75
     elif stream == "affineinit":
         o["reduce_affine_expression"] = True
     elif stream == "iterparam":
@@ -722,6 +778,16 @@ def eval_mx(expr, env):
     return [Fraction(x) if math.isfinite(x) else x for x in vals]
 
 
+def lookup_val(env, nm):
+    """value of a symbol; a scalar that vector expansion renamed `x[1,1]` / `x[1]` has the value of `x`"""
+    if nm in env:
+        return env[nm]
+    base = re.sub(r"(\[1(,1)*\])+$", "", nm)
+    if base != nm and base in env:
+        return env[base]
+    raise EvalError("no value for " + nm)
+
+
 def call_residual(f, m, env, kind="dae", override=None):
     """Evaluate a residual function of `m` at `env`; returns list of Fractions (or floats when not finite)."""
     import numpy as np
@@ -735,10 +801,8 @@ def call_residual(f, m, env, kind="dae", override=None):
                 raise EvalError("non-scalar symbol " + nm)
             if nm in ov:
                 out.append(float(ov[nm]))
-            elif nm in env:
-                out.append(float(env[nm]))
             else:
-                raise EvalError("no value for " + nm)
+                out.append(float(lookup_val(env, nm)))
         return out
     args = [float(env.get("time", 0)), vec(m.states), vec(m.der_states), vec(m.alg_states), vec(m.inputs),
             vec(m.constants), vec(m.parameters)]
@@ -819,6 +883,13 @@ def run_real(text, options, keep_model=True):
     r.n_eq0 = sum(e.numel() for e in m.equations)
     r.n_init0 = sum(e.numel() for e in m.initial_equations)
     r.build0, _ = build_functions(m)
+    r.has_delay = len(m.delay_arguments) > 0
+    r.delay_fn0 = None
+    if r.has_delay and r.build0.get("delay_arguments_function") is None:
+        try:
+            r.delay_fn0 = (m.delay_arguments_function, categories(m))
+        except Exception:  # noqa: BLE001
+            r.delay_fn0 = None
     with LogCapture() as lc:
         try:
             m.simplify(dict(options))
@@ -904,6 +975,19 @@ def oracle_c14(case, r):
         bad = [(i, str(x)) for i, x in enumerate(res) if x != 0]
         if bad:
             out.append(("the original solution does not satisfy the simplified %s residual" % kind, "all zero", bad[:6]))
+    # (3b) the delay arguments (expression and duration) have the value they had before simplification
+    if getattr(r, "delay_fn0", None) is not None and built.get("delay_arguments_function") is None:
+        try:
+            f0, cat0 = r.delay_fn0
+            def args_for(cat):
+                return [float(sol.get("time", 0))] + [[float(lookup_val(sol, n)) for n in cat[g]]
+                                                      for g in ("states", "ders", "algs", "inputs", "consts", "params")]
+            before = [float(x) for o in f0.call(args_for(cat0)) for x in o.full().ravel()]
+            after = [float(x) for o in fs["delay_arguments_function"].call(args_for(r.cat)) for x in o.full().ravel()]
+            if before != after:
+                out.append(("delay arguments changed their value at the solution", before, after))
+        except (KeyError, EvalError):
+            pass
     # (4) no other solution: the simplified affine system has full column rank in its unknowns
     if case["affine"] and not out:
         unk = [v.symbol.name() for v in list(m.der_states) + list(m.alg_states)]
@@ -1008,9 +1092,9 @@ def plan(tier, prop):
     """[(stream, number of models, option sets per model)] — fixed per tier.  The small streams of the
     (former and open) findings come first so that the time budget never cuts them off."""
     q = tier == "quick"
-    p = [("contradiction", 3 if q else 40, 2), ("iter", 3 if q else 40, 2)]
+    p = [("contradiction", 3 if q else 40, 2), ("iter", 3 if q else 40, 2), ("delay", 5 if q else 60, 3)]
     if prop == "C15":
-        p += [("constexpr", 2 if q else 30, 2), ("delay", 2 if q else 30, 2), ("timealias", 2 if q else 20, 2),
+        p += [("constexpr", 2 if q else 30, 2), ("timealias", 2 if q else 20, 2),
               ("affineinit", 2 if q else 30, 2), ("iteraffine", 2 if q else 30, 2), ("iterparam", 2 if q else 30, 2)]
     p += [("nonlinear", 8 if q else 300, 2 if q else 4),
           ("main", 40 if q else 1200, 3 if q else 5)]
